@@ -146,6 +146,8 @@ def run_large(prop, tier, seed, out, cov):
                   {"op": "synth", "strategy": "CMSGen", "n": 2, "timeout": 120}]
         if prop == "C04":
             o += [{"op": "synth", "strategy": "RandomGen", "n": 2, "timeout": 60}]
+        if prop == "C17":
+            o.append({"op": "mismatch_many", "rows_list": [r for _, r in cands[ci]], "timeout": 300})
         return o
     tasks = [(c, ops(ci)) for ci, c in enumerate(cases)]
     obs = impl.run_tasks(tasks, op_timeout=300)
@@ -214,6 +216,32 @@ def run_large(prop, tier, seed, out, cov):
                     if v != "ok" and res and prop == "C01":
                         out.append(violation(prop, "formula-accepts-invalid", c, strategy="still_sat", verdict=v,
                                              origin=kind, example=rows))
+            elif rec.get("op") == "mismatch_many":
+                if rec.get("status") != "returned":
+                    continue
+                for k, res in enumerate(rec["results"]):
+                    kind, rows = cands[ci][k]
+                    v = verd[ci][k]
+                    if v == "levels":
+                        continue          # not a well-formed candidate ('' pattern): outside C17's quantifier
+                    if kind == "sim" and v != "ok":
+                        raise tlc.TLCError("specification self-check failed: MCEnum accepted a sequence that MCTrace "
+                                           "rejects (%s) in %s: %s" % (v, c["id"], rows))
+                    if res["status"] == "raised":
+                        out.append(violation(prop, "raised", c, exc=res["exc"], site=res["site"], spec=v, candidate=rows,
+                                             detail=res.get("msg")))
+                        break
+                    if kind == "sim":
+                        n_sim += 1
+                    elif v == "ok":
+                        n_pert_ok += 1
+                    else:
+                        n_pert_bad += 1
+                    accepted = (res["keys"] == [])
+                    if accepted != (v == "ok"):
+                        out.append(violation(prop, "verdict", c, spec=v, checker=res["keys"], candidate=rows, origin=kind,
+                                             direction="checker accepts an invalid sequence" if accepted else "checker rejects a valid sequence"))
+                        break
             elif rec.get("op") == "synth" and rec.get("status") == "returned":
                 bad = {}
                 for ei, e in enumerate(rec["exps"]):
